@@ -625,18 +625,18 @@ fn real_calls(text: &[u8]) -> (String, usize)
 
 /// `model.parse.next`: the call-by-call model (`Parse.next`, with the tokenizer's look-ahead and the drain
 /// after an error) against the real iterator, for (items + 3) calls
-fn check_calls(cx: &mut Cx, cases: &[&Case])
+pub fn check_calls(cx: &mut Cx, texts: &[&[u8]])
 {
 	let mut lines: Vec<String> = Vec::new();
 	let mut reals: Vec<(String, String)> = Vec::new();
-	for c in cases
+	for text in texts
 	{
-		let lx = match real_lex(&c.text) {Ok(l) => l, Err(_) => continue};
-		let (real, n) = real_calls(&c.text);
+		let lx = match real_lex(text) {Ok(l) => l, Err(_) => continue};
+		let (real, n) = real_calls(text);
 		if n == 0 {continue;}   // a panic of the real parser is reported by the `model.parse.all` comparison
 		let req = model_request(&lx);
 		lines.push(format!("parse calls {n} {}", &req["parse toks ".len()..]));
-		reals.push((format!("calls {}", hex(&c.text)), real));
+		reals.push((format!("calls {}", hex(text)), real));
 	}
 	let replies = cx.model.ask_many(&lines);
 	for ((input, real), reply) in reals.iter().zip(replies.iter())
@@ -707,7 +707,7 @@ fn run_cases(cx: &mut Cx, cases: &[Case])
 			check_case(cx, c, lx, reply);
 		}
 		// a sample goes through the call-by-call model as well (every 4th case, and every hand-picked error site / replay)
-		let sample: Vec<&Case> = chunk.iter().enumerate().filter(|(i, c)| i % 4 == 0 || c.bucket.starts_with("ill: hand") || c.bucket == "replay").map(|(_, c)| c).collect();
+		let sample: Vec<&[u8]> = chunk.iter().enumerate().filter(|(i, c)| i % 4 == 0 || c.bucket.starts_with("ill: hand") || c.bucket == "replay").map(|(_, c)| &c.text[..]).collect();
 		check_calls(cx, &sample);
 	}
 }
